@@ -12,24 +12,24 @@ import (
 // udpModel discovers the UDP NAT machinery by role (types and members are found by shape, not by name), so that renaming
 // unexported identifiers or moving code between files does not lose the anchors.
 type udpModel struct {
-	connT      string // association type: struct embedding net.PacketConn with an *EncryptionKey field
-	keyField   string // its *shadowsocks.EncryptionKey field
-	dlField    string // its time.Time field (current read deadline)
-	metField   string // its UDPConnMetrics field
-	connField  string // the embedded/held net.PacketConn field
-	mapT       string // table type: struct with a map[string]*connT field
-	mapField   string
-	mapLock    string // lock class of the table
-	get        *ssa.Function
-	add        *ssa.Function
-	set        *ssa.Function
-	del        *ssa.Function
-	closeAll   *ssa.Function
-	newMap     *ssa.Function
-	connWrite  *ssa.Function // (*connT).WriteTo
-	connRead   *ssa.Function // (*connT).ReadFrom
-	assocGo    []*ssa.Function // goroutine literals/functions started by add
-	replyFns   []*ssa.Function // root functions containing a loop that calls connRead
+	connT     string // association type: struct embedding net.PacketConn with an *EncryptionKey field
+	keyField  string // its *shadowsocks.EncryptionKey field
+	dlField   string // its time.Time field (current read deadline)
+	metField  string // its UDPConnMetrics field
+	connField string // the embedded/held net.PacketConn field
+	mapT      string // table type: struct with a map[string]*connT field
+	mapField  string
+	mapLock   string // lock class of the table
+	get       *ssa.Function
+	add       *ssa.Function
+	set       *ssa.Function
+	del       *ssa.Function
+	closeAll  *ssa.Function
+	newMap    *ssa.Function
+	connWrite *ssa.Function   // (*connT).WriteTo
+	connRead  *ssa.Function   // (*connT).ReadFrom
+	assocGo   []*ssa.Function // goroutine literals/functions started by add
+	replyFns  []*ssa.Function // root functions containing a loop that calls connRead
 }
 
 var udpModelCache = map[*eng.Prog]*udpModel{}
